@@ -57,7 +57,7 @@ class C20(CheckBase):
     thorough_runs = 30000 + 2 * 16 * 361
     quick_budget_s = 60
     thorough_budget_s = 1200
-    run_timeout = 90
+    run_timeout = 150
     required_probes = ['two_handlers_in_flight_different_angle_types', 'abort_inside_geodepy', 'abort_inside_app_py',
                        'duplicate_delivered_concurrently', 'near_repeat_request', 'negative_hp_input']
     components = {
